@@ -295,7 +295,7 @@ def gen_rpms03_doc(rng, tier, n):
         kk = next(iter(manifest[v][a]))
         nn = next(iter(manifest[v][a][kk]))
         malformed = rng.choice(["missing-type", "missing-path", "missing-sigkey", "src-missing-path", "src-missing-sigkey", "cell-is-list", "rpms-is-list",
-                                "src-table-is-list", "path-is-null", "variant-is-list", "src-path-absolute", "nevra-without-epoch"])
+                                "src-table-is-list", "variant-is-list", "src-path-absolute", "nevra-without-epoch"])
         if malformed.startswith("missing-"):
             manifest[v][a][kk][nn].pop(malformed[8:], None)
         elif malformed.startswith("src-missing-"):
